@@ -2,7 +2,7 @@
    /repo/traph/lru_trie/lru_trie.py on every run).  Definitions only. *)
 From Coq Require Import List NArith Bool.
 Import ListNotations.
-From Traph Require Import Bytes Consts Helpers Tst TstDefs Traph TraceDefs GenStorage GenNode GenTrie GenTrieFacts.
+From Traph Require Import Bytes Consts Helpers Tst TstDefs Traph TraceDefs StoreFacts GenStorage GenNode GenTrie GenTrieFacts.
 Open Scope N_scope.
 
 (* an item (node object, lru) a translated traversal yields represents the model's (lru, node): same LRU, and the object is
